@@ -17,12 +17,29 @@ void Group::replaceEntities(const std::vector<T> &entities)
     base::IGroup *ig = backend();
     ObjectType ot = objectToType<T>::value;
 
-    while (ig->entityCount(ot) > 0) {
-        ig->removeEntity(ig->getEntity<typename objectToType<T>::backendType>(0));
+    typedef typename objectToType<T>::backendType BT;
+    // remember the present members: if one of the new members is refused, the old
+    // list is restored (in its order) and the call leaves no trace
+    std::vector<T> old;
+    for (ndsize_t i = 0; i < ig->entityCount(ot); i++) {
+        old.push_back(T(ig->getEntity<BT>(i)));
     }
 
-    for (const auto &e : entities) {
-        ig->addEntity(e);
+    try {
+        while (ig->entityCount(ot) > 0) {
+            ig->removeEntity(ig->getEntity<BT>(0));
+        }
+        for (const auto &e : entities) {
+            ig->addEntity(e);
+        }
+    } catch (...) {
+        while (ig->entityCount(ot) > 0) {
+            ig->removeEntity(ig->getEntity<BT>(0));
+        }
+        for (const auto &e : old) {
+            ig->addEntity(e);
+        }
+        throw;
     }
 }
 
